@@ -9,7 +9,7 @@ PROP = 'C10'
 # other-axis id lists of an extra operand relative to the first operand's other-axis ids
 def inv_patterns(ids):
     return {'identical': list(ids), 'permuted': list(ids)[::-1], 'missing-first': list(ids)[1:] or list(ids),
-            'missing-last+new': list(ids)[:-1] + ['b2'], 'disjoint': ['b10x', 'b2']}
+            'missing-last+new': list(ids)[:-1] + ['b2'], 'disjoint': ['b10x', 'b2'], 'zero-length': []}
 
 
 def operand(axis, axis_ids, inv_ids, prefix, md, sparse=False):
@@ -26,8 +26,8 @@ def operand(axis, axis_ids, inv_ids, prefix, md, sparse=False):
         indices = [j for i in range(nr) for j in range(nc)]
         indptr = [i * nc for i in range(nr + 1)]
     m = b.csr((_arr(data), indices, indptr), shape=(nr, nc))
-    omd = [{'taxonomy': ['k', prefix + o]} for o in oids] if md else None
-    smd = [{'env': prefix + s} for s in sids] if md else None
+    omd = [{'taxonomy': ['k', prefix + o]} for o in oids] if md and oids else None
+    smd = [{'env': prefix + s} for s in sids] if md and sids else None
     t = b.Table(m, list(oids), list(sids), omd, smd, type='OTU table')
     return t, ATM(oids, sids, dense, omd, smd, 'OTU table')
 
@@ -63,7 +63,9 @@ def h_concat(axis, k, md_cfg, via, shape=(2, 2), sparse_others=False):
     names = [['c1', 'c2'], ['d-1']]
     for q in range(k - 1):
         pk = pick(sorted(pats), f'inv-pattern{q}')
-        t, a = operand(axis, names[q], pats[pk], 'wx'[q], md_cfg[q + 1] if q + 1 < len(md_cfg) else False, sparse=sparse_others)
+        # an operand may also have no id at all on the concatenated axis: it still contributes its other-axis ids
+        axis_ids = [] if (k == 2 and pk != 'zero-length' and flag('operand-without-axis-ids')) else names[q]
+        t, a = operand(axis, axis_ids, pats[pk], 'wx'[q], md_cfg[q + 1] if q + 1 < len(md_cfg) else False, sparse=sparse_others)
         ops.append(t)
         atms.append(a)
     sig = dict(axis=axis, k=k, via=via)
